@@ -425,6 +425,11 @@ def normal_word(rnd, special_p=0.15):
     w = "".join(rnd.choice(WORD_CHARS) for _ in range(rnd.randint(1, 4)))
     if rnd.random() < 0.08:
         w += rnd.choice(["é", "\U0001F600", "中"])
+    if rnd.random() < 0.06:
+        # spaces that are not HTML whitespace (no-break, ideographic, thin): ordinary characters
+        # for the parser's whitespace handling, also at the edge of a block
+        sp = rnd.choice(["\u00a0", "\u3000", "\u2009", "\u00a0\u00a0"])
+        w = w + sp if rnd.random() < 0.6 else sp + w
     return w
 
 
